@@ -716,7 +716,11 @@ func c19InternalErrorFresh(r *core.Run, rule string) {
 				}
 				for _, r2 := range *fa.Referrers() {
 					if st, ok := r2.(*ssa.Store); ok && st.Addr == ssa.Value(fa) {
-						if s, ok := core.ConstString(st.Val); ok && s == "system.internalError" {
+						sv := st.Val
+						if lf.Rs != nil {
+							sv = lf.Rs.R(sv) // a constructor helper's parameter: what InternalError passes for it
+						}
+						if s, ok := core.ConstString(sv); ok && s == "system.internalError" {
 							code = true
 						}
 					}
